@@ -2863,7 +2863,12 @@ impl SctpInner {
                 }
                 partial.remove(&stream_id).unwrap_or_default().freeze()
             };
-            self.handle_dcep(stream_id, message).await?;
+            // A DCEP message that cannot be handled is dropped like any other
+            // undeliverable message: returning the error from here would leave
+            // its TSN unacknowledged for ever and stall every channel.
+            if let Err(e) = self.handle_dcep(stream_id, message).await {
+                debug!("SCTP: dropping DCEP message on stream {}: {}", stream_id, e);
+            }
             return Ok(());
         }
 
